@@ -107,3 +107,32 @@ Theorem flow_output_clock f stdin n1 n2 :
    match run_pass a1 (flow_overrides a1) stdin n1 with OOk cur => calm (z_vars cur) | _ => True end) ->
   flow_output f stdin n1 = flow_output f stdin n2.
 Proof. intros Hd Hc. unfold flow_output. rewrite (flow_zerv_clock f stdin n1 n2 Hd Hc). reflexivity. Qed.
+
+(* C04: "nothing changed at a clean tagged commit".  In a calm state (not dirty, distance 0 or unset, --dirty not forced) flow's second
+   pass carries no bump at all: the result is exactly the object of the first pass - the base version with the explicit overrides. *)
+Lemma flow_bumps_calm_is_overrides lab num mode hl now a z : calm (z_vars z) -> flow_bumps lab num mode hl now a z = flow_overrides a z.
+Proof.
+  intros [C1 C2]. unfold flow_bumps. destruct (flow_overrides a z) as [o|] eqn:E; [|reflexivity]. cbv zeta. rewrite C1, C2. cbn [orb negb andb].
+  unfold flow_overrides in E. destruct (resolve_args a) as [ra|]; [|discriminate]. inversion E; subst o. clear E.
+  destruct mode; cbn [negb orb andb]; rewrite ?andb_false_r; reflexivity.
+Qed.
+
+Theorem flow_clean_is_first_pass f stdin now :
+  o_dirty (f_base f) = false -> flow_validate f = true ->
+  forall cur, (let a1 := pass_args f false in run_pass a1 (flow_overrides a1) stdin now = OOk cur) -> calm (z_vars cur) ->
+  flow_zerv f stdin now = OOk cur.
+Proof.
+  intros Hd Hv cur. cbv zeta. set (a1 := pass_args f false). intros E1 [C1 C2].
+  unfold flow_zerv. rewrite Hd. fold a1. rewrite E1, Hv. cbn [negb].
+  destruct (resolve_for_branch _ (v_bumped_branch (z_vars cur))) as [[rl rn] rm]. rewrite C1, C2. cbn [orb].
+  match goal with |- context [if ?b then match ?m with ModeTag => false | ModeCommit => false end else false] =>
+    assert (D2 : (if b then match m with ModeTag => false | ModeCommit => false end else false) = false) by (destruct b; [destruct m|]; reflexivity) end.
+  rewrite D2. fold a1. rewrite <- E1.
+  unfold run_pass in *. destruct (negb (validate_args a1)); [reflexivity|].
+  destruct (match g_source a1 with Some s => s | None => _ end); try reflexivity.
+  - destruct (pass_calm _ _ _ _ _ _ E1 (conj C1 C2)) as [z [Pz Cz]].
+    eapply pass_agree; [exact Pz|exact Cz|apply flow_bumps_calm_is_overrides, Cz].
+  - destruct stdin as [[z0|]|]; try reflexivity.
+    destruct (pass_calm _ _ _ _ _ _ E1 (conj C1 C2)) as [z [Pz Cz]].
+    eapply pass_agree; [exact Pz|exact Cz|apply flow_bumps_calm_is_overrides, Cz].
+Qed.
